@@ -142,6 +142,9 @@ STD_UNCHECKED = (
     "ptr::read_unaligned", "ptr::write_unaligned", "ptr::read_volatile", "ptr::write_volatile", "ptr::swap", "ptr::replace", "mem::transmute_copy",
     "Vec::set_len", "Vec::from_raw_parts", "String::from_utf8_unchecked", "str::from_utf8_unchecked", "Box::from_raw", "Rc::from_raw", "Arc::from_raw",
     "num::unchecked_add", "num::unchecked_sub", "num::unchecked_mul", "NonZero::new_unchecked", "Layout::from_size_align_unchecked",
+    "mut_ptr::read", "const_ptr::read", "mut_ptr::write", "mut_ptr::copy_to", "const_ptr::copy_to", "mut_ptr::copy_from", "mut_ptr::copy_to_nonoverlapping", "const_ptr::copy_to_nonoverlapping",
+    "mut_ptr::copy_from_nonoverlapping", "mut_ptr::drop_in_place", "mut_ptr::sub", "const_ptr::sub", "mut_ptr::replace", "mut_ptr::swap", "mut_ptr::as_mut", "mut_ptr::as_ref", "const_ptr::as_ref",
+    "NonNull::as_ref", "NonNull::as_mut", "NonNull::read", "NonNull::write", "mut_ptr::write_bytes", "ptr::write_bytes",
 )
 
 
@@ -229,6 +232,8 @@ def fam(path):
     p = strip_type_args(path)
     p = re.sub(r"\b(Storage|Borrow|IterMut|Iter|Components|View|Slices)\d+\b", r"\1N", p)
     p = re.sub(r"_(\d+)(::|$)", r"_I\2", p)
+    # a closure belongs to the function it is written in (moving code between the two is not a new owner)
+    p = re.sub(r"(::\{closure#\d+\})+", "", p)
     return p
 
 
@@ -244,8 +249,11 @@ for _cls, _ops in {
     "unchecked-index": ("slice::get_unchecked", "slice::get_unchecked_mut"),
     "raw-parts": ("slice::from_raw_parts", "slice::from_raw_parts_mut"),
     "ptr-move": ("ptr::read", "ptr::write", "ptr::copy", "ptr::copy_nonoverlapping", "ptr::swap", "ptr::replace", "ptr::read_unaligned", "ptr::write_unaligned", "ptr::read_volatile", "ptr::write_volatile",
+                 "mut_ptr::read", "const_ptr::read", "mut_ptr::write", "mut_ptr::copy_to", "const_ptr::copy_to", "mut_ptr::copy_from", "mut_ptr::copy_to_nonoverlapping", "const_ptr::copy_to_nonoverlapping",
+                 "mut_ptr::copy_from_nonoverlapping", "mut_ptr::replace", "mut_ptr::swap", "NonNull::read", "NonNull::write", "mut_ptr::write_bytes", "ptr::write_bytes",
                  "MaybeUninit::assume_init", "MaybeUninit::assume_init_ref", "MaybeUninit::assume_init_mut"),
-    "drop-in-place": ("ptr::drop_in_place",),
+    "drop-in-place": ("ptr::drop_in_place", "mut_ptr::drop_in_place"),
+    "raw-deref": ("mut_ptr::as_mut", "mut_ptr::as_ref", "const_ptr::as_ref", "NonNull::as_ref", "NonNull::as_mut"),
     "alloc": ("alloc::alloc", "alloc::realloc", "alloc::dealloc", "Layout::from_size_align_unchecked"),
     "assume": ("hint::unreachable_unchecked", "hint::assert_unchecked", "Option::unwrap_unchecked", "Result::unwrap_unchecked", "NonNull::new_unchecked", "NonZero::new_unchecked",
                "num::unchecked_add", "num::unchecked_sub", "num::unchecked_mul"),
@@ -276,7 +284,7 @@ def rule_unchecked_inventory(ctx, R):
         return
     allowed = {}
     for e in table:
-        allowed.setdefault(e["fn"], {})[op_class(e["op"])] = e.get("discharge", "")
+        allowed.setdefault(fam(e["fn"]), {})[op_class(e["op"])] = e.get("discharge", "")
     owners = set(allowed)
     g = ctx.gecs
     # reverse call graph inside gecs (closures hang under their parent)
@@ -329,6 +337,10 @@ def rule_unchecked_inventory(ctx, R):
                         if nm == op:
                             callee_fams.add(fam(c.path))
             if callee_fams and not (callee_fams & owners) and not any(x.split("::")[-1] in {o_.split("::")[-1] for o_ in owners} for x in callee_fams):
+                continue
+            # an unsafe method calling a sibling method of the same DataPtr impl passes its own contract along (the
+            # sibling's body is judged where it stands); calls between StorageN methods stay listed (X-WMC also judges them)
+            if callee_fams and all(x.rsplit("::", 1)[0] == fam(path).rsplit("::", 1)[0] and "DataPtr" in x for x in callee_fams):
                 continue
         cls = op_class(op)
         os_ = owners_of(path)
